@@ -18,7 +18,7 @@ D10 = """0 spawn
 
 
 def knobs(r, i):
-    return {"cycle_density": 1 + i % 3, "threads": 1 + i % 3, "cancelable": i % 2 == 0, "multi": i % 3 == 0}
+    return {"cycle_density": 1 + i % 3, "threads": 1 + i % 3, "cancelable": i % 2 == 0, "multi": i % 3 == 0, "unsampled": i % 3 == 0 or i % 7 == 0}
 
 
 def known(lines, oracle, msg):
@@ -35,8 +35,27 @@ def known(lines, oracle, msg):
     return None
 
 
+MIXED = """0 spawn
+1 spawn
+0 setReporter 0
+0 root a 7261 1 0 1
+0 root u 7275 2 0 0
+0 childN m 6d a,u
+0 withProps m 0:6b=76
+0 addProps m 0:6b32=7632
+1 addProps m 0:6b33=7633
+0 addEvent m 65 6b=76
+0 drop m
+0 drop u
+0 drop a
+0 cycle
+0 stats""".split("\n")
+
+
 def extra(r):
-    return [("kf/D10-witness", D10, ["no_panic", "attachments"])]
+    return [("kf/D10-witness", D10, ["no_panic", "attachments"]),
+            # a span with a sampled and an unsampled parent: its one delivered copy carries every attachment
+            ("mixed/sampled-and-unsampled-parents", MIXED, ["no_panic", "attachments", "tree", "exactly_once"])]
 
 
 def run(v, tier, seed, replay):
